@@ -555,7 +555,7 @@ Definition x_ltb (v w : value) : res bool :=
 Definition x_abs (v : value) : res value :=
   match v with
   | VBal b => Ok (VBal (filter (fun a => negb (is_realzero a)) (map amt_abs b)))
-  | _ => v_abs v
+  | _ => v_abs false v    (* ord only matters for balances, handled above *)
   end.
 
 Definition arith (ord : bool) (cp : comm -> Z) (k : kind2) (v w : value) : res value :=
